@@ -4,13 +4,36 @@ import itertools
 import numpy as np
 import torch
 
-from _lib import handler, arr, num, close, patched, gram_to_matrix, t64
+from _lib import handler, arr, num, close, patched, gram_to_matrix, t64, scale_ladder
 from real_agg import make_agg, qp_reference
 
 
 def _pvec(c, key, m):
     v = c.get(key)
     return None if v is None else [num(x) for x in v]
+
+
+def _min_norm_value(G):
+    """min a^T G a over the simplex, exactly: on every face the minimiser solves a linear system (KKT with the sum constraint); the minimum over
+    the faces whose solution is feasible is the answer (every vertex is feasible, so the set is never empty)"""
+    m = G.shape[0]
+    sc = float(np.abs(G).max())
+    if sc == 0.0:
+        return 0.0
+    if sc != 1.0:
+        return sc * _min_norm_value(G / sc)  # the KKT systems mix entries of G with ones: solve them at unit scale
+    best = min(float(G[i, i]) for i in range(m))
+    for k in range(2, m + 1):
+        for S in itertools.combinations(range(m), k):
+            K = np.zeros((k + 1, k + 1))
+            K[:k, :k] = G[np.ix_(S, S)]
+            K[:k, k] = K[k, :k] = 1.0
+            rhs = np.zeros(k + 1)
+            rhs[k] = 1.0
+            sol = np.linalg.lstsq(K, rhs, rcond=None)[0][:k]
+            if np.all(sol >= -1e-12) and abs(sol.sum() - 1) < 1e-9:
+                best = min(best, float(sol @ G[np.ix_(S, S)] @ sol))
+    return max(best, 0.0)
 
 
 @handler("non_conflict")
@@ -28,24 +51,40 @@ def r_non_conflict(c):
         bad = bool(np.any(slack < -1e-7 * max(abs(G).max(), 1e-300)))
         return dict(reproduced=bad, Gw=(G @ w).tolist(), allowance=(reg * s * s * w).tolist())
     if agg in ("mgda", "mgda_rate"):
-        A = make_agg("mgda", m, dict(epsilon=num(c.get("epsilon", 0)), max_iters=int(c["iters"])))
-        a = A.weighting(t64(J)).numpy()
-        # min-norm point of the hull by dense search (m = 2)
-        ts = np.linspace(0, 1, 200001)
-        vals = np.array([t * t * G[0, 0] + 2 * t * (1 - t) * G[0, 1] + (1 - t) ** 2 * G[1, 1] for t in ts]) if m == 2 else None
-        qb = float(vals.min()) if vals is not None else 0.0
-        qa = float(a @ G @ a)
-        if agg == "mgda_rate":
-            return dict(reproduced=bool(qa - qb > 8 * s * s / (int(c["iters"]) + 2) + 1e-9 * max(1.0, s * s)), qa=qa, qb=qb)
-        allow = s * np.sqrt(max(qa - qb, 0.0))
-        bad = bool(np.any(G @ a < -allow - 1e-6 * max(abs(G).max(), 1e-300)))
-        return dict(reproduced=bad, Ga=(G @ a).tolist(), allowance=float(allow))
+        def run(J):
+            G = J @ J.T
+            s = np.linalg.svd(J, compute_uv=False).max()
+            A = make_agg("mgda", m, dict(epsilon=num(c.get("epsilon", 0)), max_iters=int(c["iters"])))
+            a = A.weighting(t64(J)).numpy()
+            qb = _min_norm_value(G)
+            qa = float(a @ G @ a)
+            if agg == "mgda_rate":
+                return dict(reproduced=bool(qa - qb > 8 * s * s / (int(c["iters"]) + 2) + 1e-9 * s * s), qa=qa, qb=qb, J=J.tolist())
+            allow = s * np.sqrt(max(qa - qb, 0.0))
+            bad = bool(np.any(G @ a < -allow - 1e-6 * max(abs(G).max(), 1e-300)))
+            return dict(reproduced=bad, Ga=(G @ a).tolist(), allowance=float(allow), J=J.tolist())
+        return scale_ladder(run, J)
     if agg == "cagrad":
         A = make_agg("cagrad", m, dict(c=num(c["c"]), norm_eps=num(c["norm_eps"])))
         out = A(t64(J)).numpy()
         bad = bool(np.any(J @ out < -1e-4 * max(abs(G).max(), 1e-300)))
         return dict(reproduced=bad, J_A=(J @ out).tolist())
     raise KeyError(agg)
+
+
+def _unstable(A, J, rng):
+    """is A discontinuous at J?  A relative perturbation E of 1e-9 (multiplicative: exact zeros stay exact) and its opposite -E give
+    macroscopically different results exactly when a tie or a threshold is being decided by rounding (to first order the tied scores are
+    ordered oppositely under E and -E); such a matrix is no witness for anything."""
+    for _ in range(3):
+        E = 1e-9 * rng.standard_normal(J.shape)
+        outs = []
+        for sgn in (1, -1):
+            torch.manual_seed(3)
+            outs.append(A(t64(J * (1 + sgn * E))).numpy())
+        if not close(outs[0], outs[1], 1e-4, scale=max(np.abs(J).max(), 1e-300)):
+            return True
+    return False
 
 
 @handler("gram_only_read")
@@ -72,6 +111,8 @@ def r_gram_only(c):
         torch.manual_seed(3)
         o2 = A(t64(J @ Q)).numpy()
         if not close(o2, o1 @ Q, 1e-4 if name == "cagrad" else 1e-6):
+            if _unstable(A, J, rng):
+                continue  # a tie (equal scores / equal distances) broken by rounding: A is discontinuous at J, nothing can be concluded from this matrix
             bad.append(f"integer matrix {J.tolist()}: A(JQ) != A(J)Q : {o2.tolist()} vs {(o1 @ Q).tolist()}")
             break
     for sc in scales:
@@ -94,7 +135,7 @@ def r_gram_only(c):
                 o1 = A(t64(J)).numpy()
                 torch.manual_seed(3)
                 o2 = A(t64(J @ Q)).numpy()
-                if not close(o2 / sc, (o1 @ Q) / sc, 1e-4 if name == "cagrad" else 1e-6):
+                if not close(o2 / sc, (o1 @ Q) / sc, 1e-4 if name == "cagrad" else 1e-6) and not _unstable(A, J, rng):
                     bad.append(f"trial {trial} (scale {sc}, {dist}): A(JQ) != A(J)Q : {(o2 / sc).tolist()} vs {((o1 @ Q) / sc).tolist()}")
                 if len(bad) >= 2:
                     break
@@ -156,6 +197,21 @@ def r_scaling(c):
         pass
     o1, o2, o3 = _scaled_runs(A, J, c1, c2, a, b)
     sc = np.abs(J).max() * max(np.max(a * c1 + b * c2), 1e-300)
+    if close(o3, a * o1 + b * o2, 1e-6, scale=sc) and c["agg"] == "config":
+        # the model's pinv is an arbitrary kernel, so the DIRECTIONS of its rows need not be a witness for the real pinv; what the solver
+        # pinned down are the row norms and the scalings.  Keep those, try a fixed list of generic row directions (full rank, all signs).
+        norms = np.linalg.norm(J, axis=1)
+        n = J.shape[1]
+        rng = np.random.default_rng(20240909)
+        for k in range(40):
+            D = rng.standard_normal((m, n))
+            D /= np.linalg.norm(D, axis=1, keepdims=True)
+            Jv = D * norms[:, None]
+            p1, p2, p3 = _scaled_runs(A, Jv, c1, c2, a, b)
+            scv = np.abs(Jv).max() * max(np.max(a * c1 + b * c2), 1e-300)
+            if not close(p3, a * p1 + b * p2, 1e-6, scale=scv):
+                return dict(reproduced=True, lhs=p3.tolist(), rhs=(a * p1 + b * p2).tolist(), J=Jv.tolist(),
+                            found_by="row norms and scalings of the solver's counterexample, generic row directions")
     return dict(reproduced=not close(o3, a * o1 + b * o2, 1e-6, scale=sc), lhs=o3.tolist(), rhs=(a * o1 + b * o2).tolist())
 
 
@@ -169,4 +225,19 @@ def r_scaling_entry(c):
     A = make_agg(c["agg"], m, None, vec)
     o1, o2, o3 = _scaled_runs(A, J, c1, c2, a, b)
     sc = np.abs(J).max() * max(np.max(a * c1 + b * c2), 1e-300)
+    if close(o3, a * o1 + b * o2, 1e-6, scale=sc) and c["agg"] == "config":
+        # the model's pinv is an arbitrary kernel, so the DIRECTIONS of its rows need not be a witness for the real pinv; what the solver
+        # pinned down are the row norms and the scalings.  Keep those, try a fixed list of generic row directions (full rank, all signs).
+        norms = np.linalg.norm(J, axis=1)
+        n = J.shape[1]
+        rng = np.random.default_rng(20240909)
+        for k in range(40):
+            D = rng.standard_normal((m, n))
+            D /= np.linalg.norm(D, axis=1, keepdims=True)
+            Jv = D * norms[:, None]
+            p1, p2, p3 = _scaled_runs(A, Jv, c1, c2, a, b)
+            scv = np.abs(Jv).max() * max(np.max(a * c1 + b * c2), 1e-300)
+            if not close(p3, a * p1 + b * p2, 1e-6, scale=scv):
+                return dict(reproduced=True, lhs=p3.tolist(), rhs=(a * p1 + b * p2).tolist(), J=Jv.tolist(),
+                            found_by="row norms and scalings of the solver's counterexample, generic row directions")
     return dict(reproduced=not close(o3, a * o1 + b * o2, 1e-6, scale=sc), lhs=o3.tolist(), rhs=(a * o1 + b * o2).tolist())
